@@ -8,7 +8,9 @@
               set of masked prefixes the peer owns or has duplicates, root not
               nil although the spec map is empty, panic / non-termination)
    position = 8 * item index + what (1 lookup, 2 listing, 3 shape, 4 root not
-   empty, 5 pointers, 6 crash).
+   empty, 5 pointers, 6 crash, 7 undecodable operation or a concurrent plan whose
+   answers are not the specification's, 0 look-up concurrent with unrelated churn
+   operations gave another owner than the specification).
    Depends only on Trie.v and Spec.v.  Also: exhaustive sweeps of the model
    against the specification over a small alphabet (thorough tier). *)
 From WG Require Import Base.Prelude Base.Ints AllowedIPs.Trie AllowedIPs.Spec.
@@ -131,7 +133,12 @@ Record case := mkcase {
   c_probes : list Uint63.int;
   c_items : list item;
   c_ptrbad : Uint63.int;   (* 0, or 1 + index of the item after which the pointer check failed *)
-  c_crash : Uint63.int     (* 0, or 1 + index of the item at which the implementation panicked / hung *)
+  c_crash : Uint63.int;    (* 0, or 1 + index of the item at which the implementation panicked / hung *)
+  c_cwant : list Uint63.int; (* concurrent plan: pairs [probe index; answer] the concurrent look-ups are compared with *)
+  c_cfrom : Uint63.int;    (* ... which must be the specification's answers at every observation from this item on *)
+  c_conc : Uint63.int      (* concurrent phase (if any): number of look-ups, run concurrently with churn
+                              operations that cannot change their answer, that did NOT return the owner
+                              the specification gives for the address (what = 0) *)
 }.
 
 Definition is_nil {A} (l : list A) : bool := match l with [] => true | _ => false end.
@@ -178,37 +185,57 @@ Section Obs.
     else 0%N.
 End Obs.
 
-Fixpoint walk (probes : list (fam * bits)) (its : list item) (s : table) (sp : sstate) (i : N)
+(* the concurrent oracle: from item [cfrom] on the specification must give the
+   planned answer for every planned probe (so that the owners the concurrent
+   look-ups are compared with ARE the specification's, whatever the interleaving;
+   theorem lookup_stable_under_unrelated_ops) *)
+Fixpoint dec_want (l : list N) : list (nat * option peer) :=
+  match l with
+  | i :: w :: t => (N.to_nat i, dec_ans w) :: dec_want t
+  | _ => []
+  end.
+Definition plan_ok (probes : list (fam * bits)) (sp : sstate) (cw : list (nat * option peer)) : bool :=
+  forallb (fun iw => match nth_error probes (fst iw) with
+                     | Some pr => opt_eqb (slookup (ssel sp (fst pr)) (snd pr)) (snd iw)
+                     | None => false
+                     end) cw.
+
+Fixpoint walk (probes : list (fam * bits)) (cw : list (nat * option peer)) (cfrom : N)
+         (its : list item) (s : table) (sp : sstate) (i : N)
          (k1 k2 : option N) : option N * option N :=
   match its with
   | [] => (k1, k2)
   | IOp l :: its' =>
       match dec_op (ns_of_ints l) with
-      | Some o => walk probes its' (fst (step s o)) (fst (sstep sp o)) (i + 1) k1 k2
+      | Some o => walk probes cw cfrom its' (fst (step s o)) (fst (sstep sp o)) (i + 1) k1 k2
       | None => (Some (8 * i + 7)%N, k2)
       end
   | IObs look lists sh4 sh6 :: its' =>
       let k1' := match k1 with
                  | Some _ => k1
                  | None => let w := model_obs probes s look lists sh4 sh6 in
-                           if N.eqb w 0 then None else Some (8 * i + w)%N
+                           if negb (N.eqb w 0) then Some (8 * i + w)%N
+                           else if (cfrom <=? i)%N && negb (plan_ok probes sp cw) then Some (8 * i + 7)%N
+                           else None
                  end in
       let k2' := match k2 with
                  | Some _ => k2
                  | None => let w := spec_obs probes sp look lists sh4 sh6 in
                            if N.eqb w 0 then None else Some (8 * i + w)%N
                  end in
-      walk probes its' s sp (i + 1) k1' k2'
+      walk probes cw cfrom its' s sp (i + 1) k1' k2'
   end.
 
 Definition check_case (k : case) : list (N * N) :=
-  let '(k1, k2) := walk (dec_probes (ns_of_ints (c_probes k))) (c_items k) empty sempty 0 None None in
+  let '(k1, k2) := walk (dec_probes (ns_of_ints (c_probes k))) (dec_want (ns_of_ints (c_cwant k))) (n_of_int (c_cfrom k))
+                        (c_items k) empty sempty 0 None None in
   let pb := n_of_int (c_ptrbad k) in
   let cr := n_of_int (c_crash k) in
   (match k1 with Some p => [(1, p)] | None => [] end)%N ++
   (if N.eqb pb 0 then [] else [(1, 8 * (pb - 1) + 5)])%N ++
   (match k2 with Some p => [(2, p)] | None => [] end)%N ++
-  (if N.eqb cr 0 then [] else [(2, 8 * (cr - 1) + 6)])%N.
+  (if N.eqb cr 0 then [] else [(2, 8 * (cr - 1) + 6)])%N ++
+  (if N.eqb (n_of_int (c_conc k)) 0 then [] else [(2, 8 * N.of_nat (length (c_items k)))])%N.
 
 Fixpoint check_cases (ks : list case) (idx : N) : list (N * N * N) :=
   match ks with
